@@ -3,6 +3,7 @@ package main
 // SSA -> passive-form verification conditions.
 
 import (
+	"go/constant"
 	"sync"
 	"fmt"
 	"go/token"
@@ -1154,6 +1155,12 @@ func (fr *frame) loopHeader(h *ssa.BasicBlock, body map[*ssa.BasicBlock]bool, st
 		c := ft.fresh("lv_"+mangle(phi.Comment), s)
 		ft.typeInvLoop(c, phi.Type())
 		fr.vals[phi] = Val{T: c, Ty: phi.Type()}
+		if lo, ok := counterLowerBound(phi, body); ok {
+			// automatic counter invariant: a loop variable that enters the loop as the constant lo and is only ever
+			// advanced by adding a positive constant stays >= lo (induction over the iterations; no overflow: A-int)
+			ft.fact("(>= " + c + " " + lo + ")")
+			ft.assumed["signed integer arithmetic does not overflow (A-int): loop counters advanced by a positive constant stay above their start value"] = true
+		}
 	}
 	for _, cl := range invs {
 		env := fr.invEnv(h, nst)
@@ -1167,6 +1174,55 @@ func (fr *frame) loopHeader(h *ssa.BasicBlock, body map[*ssa.BasicBlock]bool, st
 		fr.pendingLoopCover = append(fr.pendingLoopCover, h)
 	}
 	return nst
+}
+
+// counterLowerBound recognises `for i := c; ...; i += k` (k > 0, c and k constants): the header phi has the constant c on
+// every edge from outside the loop and phi + k on every edge from inside it.
+func counterLowerBound(phi *ssa.Phi, body map[*ssa.BasicBlock]bool) (string, bool) {
+	b, ok := phi.Type().Underlying().(*types.Basic)
+	if !ok || b.Info()&types.IsInteger == 0 || b.Info()&types.IsUnsigned != 0 {
+		return "", false // unsigned counters wrap; signed ones are assumed not to overflow (A-int)
+	}
+	lo := ""
+	seenIn, seenOut := false, false
+	for k, p := range phi.Block().Preds {
+		e := phi.Edges[k]
+		if body[p] {
+			bo, ok := e.(*ssa.BinOp)
+			if !ok || bo.Op != token.ADD {
+				return "", false
+			}
+			var other ssa.Value
+			switch {
+			case bo.X == ssa.Value(phi):
+				other = bo.Y
+			case bo.Y == ssa.Value(phi):
+				other = bo.X
+			default:
+				return "", false
+			}
+			c, ok := other.(*ssa.Const)
+			if !ok || c.Value == nil || c.Value.Kind() != constant.Int || constant.Sign(c.Value) <= 0 {
+				return "", false
+			}
+			seenIn = true
+			continue
+		}
+		c, ok := e.(*ssa.Const)
+		if !ok || c.Value == nil || c.Value.Kind() != constant.Int {
+			return "", false
+		}
+		v := c.Value.ExactString()
+		if strings.HasPrefix(v, "-") {
+			v = "(- " + v[1:] + ")"
+		}
+		if lo != "" && lo != v {
+			return "", false
+		}
+		lo = v
+		seenOut = true
+	}
+	return lo, seenIn && seenOut
 }
 
 // typeInvLoop asserts what Go's type system guarantees about a value: integer ranges, also of struct fields.
